@@ -82,5 +82,3 @@ func cmdVerify(args []string) {
 		os.Exit(1)
 	}
 }
-
-func cmdCheck(args []string) {}
